@@ -86,6 +86,7 @@ func (c *cond) matches(row []cell) bool {
 
 type createRow struct {
 	PK   int64
+	PK2  cell // second key member (nil for single-member keys)
 	Vals map[int]gval // struct rows: fields that are not listed hold their zero value
 	Keys []kv         // map rows (the key, when given, is one of the entries)
 }
@@ -101,6 +102,7 @@ type op struct {
 	Mode     string
 	Other    []string
 	PK       int64 // primary key of the model value (0 = not set)
+	PK2      cell  // second member of a composite key (nil = the model has none)
 	Cond     *cond
 	Select   []string // nil = no Select call
 	Omit     []string
@@ -146,7 +148,11 @@ func (o *op) render(m *model) string {
 		fmt.Fprintf(&b, " value-type-tags%q", o.Other[1:])
 	}
 	if !o.isCreate() {
-		fmt.Fprintf(&b, " key=%d where(%s)", o.PK, o.Cond.render(m))
+		if o.PK2 != nil {
+			fmt.Fprintf(&b, " key=(%d,%s) where(%s)", o.PK, cellStr(o.PK2), o.Cond.render(m))
+		} else {
+			fmt.Fprintf(&b, " key=%d where(%s)", o.PK, o.Cond.render(m))
+		}
 	}
 	if o.Select != nil {
 		fmt.Fprintf(&b, " Select%q", o.Select)
@@ -164,7 +170,11 @@ func (o *op) render(m *model) string {
 		if r.Keys != nil {
 			b.WriteString(" " + renderKVs(m, r.Keys))
 		} else {
-			fmt.Fprintf(&b, " {ID: %d, %s}", r.PK, renderVals(m, r.Vals))
+			if r.PK2 != nil {
+				fmt.Fprintf(&b, " {ID: %d, Rev: %s, %s}", r.PK, cellStr(r.PK2), renderVals(m, r.Vals))
+			} else {
+				fmt.Fprintf(&b, " {ID: %d, %s}", r.PK, renderVals(m, r.Vals))
+			}
 		}
 	}
 	if o.Batch > 0 {
@@ -218,6 +228,8 @@ type prediction struct {
 	inserted int  // new rows
 	written  int  // predicted (row, column) writes into existing rows
 	wantErr  bool // not used by generated cases (kept for witnesses)
+	errOK    bool // the write may fail (then nothing changes) or succeed as predicted
+	partial  int  // rows that match the non-zero members of a partly zero key only
 	empty    bool // a created row proposes no column at all
 }
 
@@ -251,7 +263,7 @@ func predict(m *model, before *table, o *op) prediction {
 					vals[i] = gval{Cell: nowCell(f)}
 				}
 			}
-			rows[r] = createRow{PK: row.PK, Vals: vals}
+			rows[r] = createRow{PK: row.PK, PK2: row.PK2, Vals: vals}
 		}
 		predictCreate(m, &p, o, sel, rows, "updateall")
 		return p
@@ -264,7 +276,7 @@ func predict(m *model, before *table, o *op) prediction {
 	// the assignments of an update path: field -> value
 	writes := map[int]gval{}
 	structWrites := func(all bool) {
-		for i := 1; i < len(m.Fields); i++ {
+		for i := m.NK; i < len(m.Fields); i++ {
 			f := m.Fields[i]
 			known, _, upd := f.perms()
 			if !known || !upd || sel.omit[i] {
@@ -304,7 +316,7 @@ func predict(m *model, before *table, o *op) prediction {
 			}
 		}
 		if o.hooks() {
-			for i := 1; i < len(m.Fields); i++ {
+			for i := m.NK; i < len(m.Fields); i++ {
 				f := m.Fields[i]
 				known, _, upd := f.perms()
 				if f.Auto == "update" && !given[i] && known && upd && !sel.omit[i] {
@@ -320,12 +332,30 @@ func predict(m *model, before *table, o *op) prediction {
 	case "updates-map", "updatecolumns-map", "update", "updatecolumn":
 		mapWrites()
 	case "save":
-		if o.PK == 0 {
+		if m.NK == 1 && o.PK == 0 {
 			// no key: Save creates
 			predictCreate(m, &p, o, sel, []createRow{{PK: 0, Vals: o.Struct}}, "")
 			return p
 		}
-		if _, exists := before.rows[o.PK]; !exists && !sel.has {
+		if m.NK == 2 && (o.PK == 0 || isZeroCell(o.PK2)) {
+			// a composite key with a zero member. The statement decides: only the row matching ALL
+			// key members may change. Whether that row is then updated or the write is rejected
+			// (gorm takes the insert path) it does not say: both accepted.
+			if old, exists := before.rows[m.keyOf(o.PK, o.PK2)]; exists {
+				p.errOK = true
+				if o.Cond.matches(old) {
+					structWrites(!sel.has)
+					row := p.want.rows[m.keyOf(o.PK, o.PK2)]
+					for i, g := range writes {
+						row[i] = oneOf{old[i], evalWrite(old, g)}
+					}
+				}
+				return p
+			}
+			predictCreate(m, &p, o, sel, []createRow{{PK: o.PK, PK2: o.PK2, Vals: o.Struct}}, "")
+			return p
+		}
+		if _, exists := before.rows[m.keyOf(o.PK, o.PK2)]; !exists && !sel.has {
 			// nothing to update: Save inserts the value
 			// (documented: "db.Save(&user) // UpdatedAt will change to current time")
 			vals := map[int]gval{}
@@ -337,7 +367,7 @@ func predict(m *model, before *table, o *op) prediction {
 					vals[i] = gval{Cell: nowCell(f)}
 				}
 			}
-			predictCreate(m, &p, o, sel, []createRow{{PK: o.PK, Vals: vals}}, "")
+			predictCreate(m, &p, o, sel, []createRow{{PK: o.PK, PK2: o.PK2, Vals: vals}}, "")
 			return p
 		}
 		structWrites(!sel.has)
@@ -345,12 +375,37 @@ func predict(m *model, before *table, o *op) prediction {
 		panic("harness: op kind " + o.Kind)
 	}
 
+	// the model value's key: a key whose members are all zero is "no key" (documented: the update then
+	// runs on the conditions alone). A composite key with exactly one zero member: rows matching all
+	// members change; rows matching only the non-zero member - the statement does not decide whether
+	// the zero member is a value or "not set": either accepted.
+	key := []cell{o.PK}
+	if m.NK == 2 {
+		key = append(key, o.PK2)
+	}
+	allZero := true
+	for _, k := range key {
+		allZero = allZero && isZeroCell(k)
+	}
 	for _, id := range before.ids() {
 		row := before.rows[id]
-		if o.PK != 0 && id != o.PK {
+		exact, loose := true, true
+		for j, k := range key {
+			eq := cellEq(row[j], k)
+			exact = exact && eq
+			loose = loose && (eq || isZeroCell(k))
+		}
+		if !allZero && !loose {
 			continue
 		}
 		if !o.Cond.matches(row) {
+			continue
+		}
+		if !allZero && !exact {
+			p.partial++
+			for i, g := range writes {
+				p.want.rows[id][i] = oneOf{row[i], evalWrite(row, g)}
+			}
 			continue
 		}
 		p.targeted++
@@ -375,8 +430,11 @@ func predictCreate(m *model, p *prediction, o *op, sel selection, rows []createR
 			for i, g := range r.Vals {
 				given[i] = g
 			}
-			if r.PK != 0 {
-				given[0] = gval{Cell: r.PK}
+			if r.PK != 0 || m.NK == 2 {
+				given[0] = gval{Cell: r.PK, Zero: r.PK == 0}
+			}
+			if m.NK == 2 {
+				given[1] = gval{Cell: r.PK2, Zero: isZeroCell(r.PK2)} // members of a composite key are plain columns
 			}
 		}
 		// the proposed row: every field with create permission that is selected and not omitted
@@ -414,6 +472,9 @@ func predictCreate(m *model, p *prediction, o *op, sel selection, rows []createR
 			if !ok {
 				g = gval{Zero: true, Cell: zeroCell(f)}
 			}
+			if f.DBDefault != "" && g.Zero {
+				continue // documented: a zero value is not saved for a field with a default; the database fills it
+			}
 			if f.Auto != "" && g.Zero {
 				proposed[i] = nowCell(f) // tracked times start at the current time
 			} else {
@@ -424,13 +485,14 @@ func predictCreate(m *model, p *prediction, o *op, sel selection, rows []createR
 		if len(proposed) == 0 {
 			p.empty = true
 		}
-		id, haveKey := int64(0), false
+		newID, haveKey := cell(nil), false
 		if c, ok := proposed[0]; ok {
-			id, haveKey = c.(int64), true
+			newID, haveKey = c, true
 		}
 		if !haveKey {
-			id = p.want.maxID() + 1
+			newID = p.want.maxID() + 1
 		}
+		id := m.keyOf(newID, proposed[1])
 		if old, exists := p.want.rows[id]; exists {
 			p.targeted++
 			switch conflict {
@@ -439,7 +501,9 @@ func predictCreate(m *model, p *prediction, o *op, sel selection, rows []createR
 				for i, c := range proposed {
 					f := m.Fields[i]
 					_, _, upd := f.perms()
-					if f.PK || !upd {
+					if f.PK || !upd || f.DBDefault != "" {
+						// documented: UpdateAll updates all columns "except primary keys and those columns
+						// having default values from sql func"
 						continue
 					}
 					switch f.Auto {
@@ -483,7 +547,7 @@ func predictCreate(m *model, p *prediction, o *op, sel selection, rows []createR
 				row[i] = f.Default // denied / ignored / omitted / unselected: the column default
 			}
 		}
-		row[0] = id
+		row[0] = newID
 		p.want.rows[id] = row
 		p.inserted++
 	}
